@@ -315,6 +315,190 @@ Fixpoint nodup_natb (l : list nat) : bool :=
 
 Definition root_name (t : mtree) : string := match t_name t with Some n => n | None => "" end.
 
+(* ---------------------------------------------------------------- sharing (Parameter objects / sub-modules) *)
+(* state_dict entries together with the Parameter object's own name qualified by the same key path:
+   (full key, identity, path ++ pe_name).  Its first two components are `sd_entries`. *)
+Fixpoint sd_entries3 (pre : string) (t : mtree) {struct t} : list (string * nat * string) :=
+  let 'MT _ _ ps cs _ := t in
+  (map (fun p => (prefix pre (pe_key p), pe_id p, prefix pre (pe_name p))) ps ++
+   (fix go (l : list (string * mtree)) : list (string * nat * string) :=
+      match l with [] => [] | (key, c) :: r => (sd_entries3 (prefix pre key) c ++ go r)%list end) cs)%list.
+Definition e3_key (e : string * nat * string) : string := fst (fst e).
+Definition e3_id (e : string * nat * string) : nat := snd (fst e).
+Definition e3_name (e : string * nat * string) : string := snd e.
+
+(* the first element per identity, in list order (what survives Parameter._realized) *)
+Fixpoint first_occ {A : Type} (idf : A -> nat) (seen : list nat) (l : list A) : list A :=
+  match l with
+  | [] => []
+  | x :: r => if existsb (Nat.eqb (idf x)) seen then first_occ idf seen r
+              else x :: first_occ idf (idf x :: seen) r
+  end.
+
+(* state_dict entries of the first registration (state_dict order = call order) of every Parameter object *)
+Definition first_entries (t : mtree) : list (string * nat) := first_occ snd [] (sd_entries "" t).
+Definition first_keys (t : mtree) : list string := map fst (first_entries t).
+Definition distinct_ids (t : mtree) : list nat := map snd (first_entries t).
+
+(* the Parameter objects that become initializers, in the order they are realised *)
+Definition realised_ids (cf : cfg) (t : mtree) : list nat :=
+  map fst (first_by_id [] (events cf false [] [] t)).
+
+(* root.graph.initializers as a dict name -> Parameter identity: first-insertion order, last write wins *)
+Fixpoint dict_set (k : string) (v : nat) (d : list (string * nat)) : list (string * nat) :=
+  match d with
+  | [] => [(k, v)]
+  | (k', v') :: r => if String.eqb k k' then (k', v) :: r else (k', v') :: dict_set k v r
+  end.
+Definition init_dict (cf : cfg) (t : mtree) : list (string * nat) :=
+  fold_left (fun d e => dict_set (snd e) (fst e) d) (first_by_id [] (events cf false [] [] t)) [].
+
+(* a ModuleList carries no parameters of its own (it is never called) *)
+Fixpoint lp_okb (t : mtree) {struct t} : bool :=
+  let 'MT k _ ps cs _ := t in
+  (match k, ps with KList, _ :: _ => false | _, _ => true end) &&
+  (fix go (l : list (string * mtree)) : bool :=
+     match l with [] => true | (_, c) :: r => lp_okb c && go r end) cs.
+
+(* `keys_okb` without the clause "every Parameter's own name is the key it is registered under":
+   a shared Parameter object has ONE name (given by its first registration, or explicitly), so that
+   clause cannot hold for an object registered under two different keys *)
+Fixpoint keys_shb (t : mtree) {struct t} : bool :=
+  let 'MT k _ ps cs _ := t in
+  (match k, ps with KList, _ :: _ => false | _, _ => true end) &&
+  forallb (fun p => keyok (pe_key p)) ps &&
+  nodup_strb (map pe_key ps) && nodup_strb (map fst cs) &&
+  (fix go (l : list (string * mtree)) : bool :=
+     match l with [] => true | (key, c) :: r => keyok key && keys_shb c && go r end) cs.
+
+(* ... it is required of the FIRST registration (call order) of every Parameter object only *)
+Definition first_named_okb (t : mtree) : bool :=
+  forallb (fun e => String.eqb (e3_name e) (e3_key e)) (first_occ e3_id [] (sd_entries3 "" t)).
+
+Definition sharing_okb (cf : cfg) (t : mtree) : bool :=
+  keys_shb t && first_named_okb t && (negb (realize_uses_root_scope cf) || nosubb t).
+
+(* the hypotheses of `program_okb` minus "no Parameter object is shared" *)
+Definition program_sh_okb (cf : cfg) (s : spec) : bool :=
+  consistentb URoot s && negb (kind_eqb (spec_kind s) KList) && sharing_okb cf (construct cf s).
+
+(* decidable form of `shape_ok` (names propagated: every child of a callable module carries its key,
+   every child of a ModuleList its parent's name + key), for evaluating the tree-level hypotheses on
+   object graphs observed on the real code *)
+Fixpoint namedb (acc : string) (t : mtree) {struct t} : bool :=
+  let 'MT k nm _ cs _ := t in
+  (match nm with Some n => String.eqb n acc | None => false end) &&
+  (fix go (l : list (string * mtree)) : bool :=
+     match l with
+     | [] => true
+     | (key, c) :: r => namedb (match k with KList => dot acc key | _ => key end) c && go r
+     end) cs.
+Fixpoint shape_okb (t : mtree) {struct t} : bool :=
+  let 'MT k _ _ cs _ := t in
+  (fix go (l : list (string * mtree)) : bool :=
+     match l with
+     | [] => true
+     | (key, c) :: r => (match k with KList => shape_okb c | _ => namedb key c end) && go r
+     end) cs.
+Definition tree_sh_okb (cf : cfg) (t : mtree) : bool :=
+  negb (kind_eqb (t_kind t) KList) && shape_okb t && sharing_okb cf t.
+
+(* ---------------------------------------------------------------- shared sub-modules: aliasing a module *)
+(* `parent.<key> = <module already registered at path src>` executed after construction, parent a plain
+   Module: Module.__setattr__ renames only an unnamed child, so the object (which has ONE `_name`, set
+   by its first registration) is registered a second time as it is.  In an mtree the shared object
+   shows as two identical subtrees.  Registering an existing module in a ModuleList / Sequential is NOT
+   expressed here: `_register_child` renames the object, which also changes the name seen through its
+   first registration (the harness observes such object graphs directly, see c18_sharing.py). *)
+Fixpoint find_child (key : string) (cs : list (string * mtree)) : option mtree :=
+  match cs with
+  | [] => None
+  | (k, c) :: r => if String.eqb k key then Some c else find_child key r
+  end.
+Fixpoint subtree (path : list string) (t : mtree) {struct path} : option mtree :=
+  match path with
+  | [] => Some t
+  | key :: r => match find_child key (t_children t) with Some c => subtree r c | None => None end
+  end.
+Fixpoint graft_at (dst : list string) (key : string) (c : mtree) (t : mtree) {struct dst} : option mtree :=
+  let 'MT k nm ps cs sb := t in
+  match dst with
+  | [] => match k with
+          | KMod => if mem_str key (map fst cs) then None
+                    else Some (MT k nm ps (cs ++ [(key, setattr_child key c)])%list sb)
+          | _ => None
+          end
+  | d :: r =>
+    match
+      (fix go (l : list (string * mtree)) : option (list (string * mtree)) :=
+         match l with
+         | [] => None
+         | (k', c') :: l' =>
+           if String.eqb k' d
+           then match graft_at r key c c' with Some c'' => Some ((k', c'') :: l') | None => None end
+           else match go l' with Some l'' => Some ((k', c') :: l'') | None => None end
+         end) cs
+    with
+    | Some cs' => Some (MT k nm ps cs' sb)
+    | None => None
+    end
+  end.
+(* one alias: (src path, dst path, key) *)
+Definition alias_step (ot : option mtree) (a : list string * list string * string) : option mtree :=
+  let '(src, dst, key) := a in
+  match ot with
+  | Some t => match subtree src t with Some c => graft_at dst key c t | None => None end
+  | None => None
+  end.
+Definition aliases (t : mtree) (al : list (list string * list string * string)) : option mtree :=
+  fold_left alias_step al (Some t).
+(* every alias uses the key under which the module was registered first (its name) *)
+Fixpoint alias_keys_match (t : mtree) (al : list (list string * list string * string)) : bool :=
+  match al with
+  | [] => true
+  | (src, dst, key) :: r =>
+    match subtree src t with
+    | Some c => (match t_name c with Some n => String.eqb n key | None => false end) &&
+                (match alias_step (Some t) (src, dst, key) with Some t' => alias_keys_match t' r | None => false end)
+    | None => false
+    end
+  end.
+
+(* no alias registers something INSIDE a module that is shared (the copies in the mtree would have to
+   change together): no destination path extends a source path *)
+Fixpoint is_prefix (a b : list string) : bool :=
+  match a, b with
+  | [], _ => true
+  | x :: a', y :: b' => String.eqb x y && is_prefix a' b'
+  | _ :: _, [] => false
+  end.
+Definition alias_dsts_ok (al : list (list string * list string * string)) : bool :=
+  forallb (fun a => forallb (fun b => negb (is_prefix (fst (fst b)) (snd (fst a)))) al) al.
+
+(* ---------------------------------------------------------------- correspondence helpers (sharing) *)
+Definition pair_eqb (a b : string * nat) : bool := String.eqb (fst a) (fst b) && Nat.eqb (snd a) (snd b).
+Fixpoint list_pair_eqb (a b : list (string * nat)) : bool :=
+  match a, b with
+  | [], [] => true
+  | x :: a', y :: b' => pair_eqb x y && list_pair_eqb a' b'
+  | _, _ => false
+  end.
+(* a case: the object graph (or the program that builds it), graph.initializers observed on the real
+   code as (name, Parameter identity) in dict order, named_parameters() observed as (key, identity) *)
+Definition tcase := (mtree * list (string * nat) * list (string * nat))%type.
+Definition agrees_t (cf : cfg) (c : tcase) : bool :=
+  let '(t, obs_inits, obs_named) := c in
+  list_pair_eqb (init_dict cf t) obs_inits && list_pair_eqb (sd_entries "" t) obs_named &&
+  list_str_eqb (realised_names cf t) (map fst obs_inits).
+Fixpoint disagreeing_t (cf : cfg) (i : nat) (cs : list tcase) : list nat :=
+  match cs with [] => [] | c :: r => ((if agrees_t cf c then [] else [i]) ++ disagreeing_t cf (S i) r)%list end.
+(* per case: (hypotheses of the sharing theorems hold, no identity repeats, the realised names are
+   root + first-registration keys, the realised names are root + all state_dict keys) *)
+Definition verdict_t (cf : cfg) (t : mtree) : bool * bool * bool * bool :=
+  (tree_sh_okb cf t, nodup_natb (param_ids t),
+   list_str_eqb (realised_names cf t) (map (prefix (root_name t)) (first_keys t)),
+   list_str_eqb (realised_names cf t) (map (prefix (root_name t)) (sd_keys t))).
+
 (* ---------------------------------------------------------------- correspondence helper *)
 (* a case: construction program, the initializer names observed on the real code, the state_dict
    keys observed on the real code *)
